@@ -300,6 +300,12 @@ class MPContext(BaseMPContext, StandardBaseContext):
         """
         a = ctx.__class__()
         a.prec = ctx.prec
+        # companion contexts that some functions (zetazero, nzeros,
+        # primepi2, ...) compute with
+        a._mp = a
+        for name in ('_fp', '_iv'):
+            if hasattr(ctx, name):
+                setattr(a, name, getattr(ctx, name))
         return a
 
     # Several helper methods
